@@ -64,6 +64,13 @@ ASSUMPTIONS = [
 A = dict(oe=1.0, te=0.0, cell=(1.0, 1.0), desc=False, dtype="f8")
 B = dict(oe=0.5, te=1.0, cell=(2.0, 1.0), desc=True, dtype="i4")
 C = dict(oe=0.0, te=0.0, cell=(0.5, 1.5), desc=False, dtype="f8")
+# a raster that carries a stale attrs['res'] (e.g. kept by a strided selection of a generate_terrain output): distances are those
+# of the coordinates, never of the attribute
+R1 = dict(oe=1.0, te=0.0, cell=(2.0, 1.0), desc=False, dtype="f8", res_attr=(1.0, 1.0))
+R2 = dict(oe=0.5, te=0.0, cell=(0.5, 1.5), desc=True, dtype="f8", res_attr=(3.0, 0.25))
+# cell sizes far from 1 (degrees for a metre-scale DEM; kilometres): nothing in the model depends on the unit
+T1 = dict(oe=1.0, te=0.0, cell=(5e-6, 4e-6), desc=False, dtype="f8")
+T2 = dict(oe=0.5, te=1.0, cell=(2500.0, 1000.0), desc=True, dtype="f8")
 DEFAULTS = dict(oe=0.0, te=0.0, cell=(1.0, 1.0), desc=False, dtype="f8", defaults=True)   # optional arguments omitted
 PRODUCT = [dict(oe=oe, te=te, cell=cell, desc=desc, dtype=dt)
            for oe in (0.0, 0.5, 1.0, -1.0) for te in (0.0, 1.0)
@@ -93,8 +100,18 @@ SPACES = {
         ("offset_dev_3x3_k2_AB", (3, 3), ("dev", (-2, 3), 2), [A, B], "offset"),
         ("offset_2x3_02_C", (2, 3), ("full", (0, 2)), [C], "offset"),
         ("offset_3x2_02_C", (3, 2), ("full", (0, 2)), [C], "offset"),
+        ("stale_res_attr_3x3_02", (3, 3), ("full", (0, 2)), [R1, R2]),
+        ("stale_res_attr_2x4_012", (2, 4), ("full", (0, 1, 2)), [R1]),
+        ("cell_size_magnitudes_3x3_02", (3, 3), ("full", (0, 2)), [T1, T2]),
+        ("cell_size_magnitudes_offset_2x3_02", (2, 3), ("full", (0, 2)), [T1, T2], "offset"),
     ],
     "thorough": [
+        ("cell_size_magnitudes_3x3_02", (3, 3), ("full", (0, 2)), [T1, T2]),
+        ("cell_size_magnitudes_offset_2x3_02", (2, 3), ("full", (0, 2)), [T1, T2], "offset"),
+        ("cell_size_magnitudes_dev_5x5_k2", (5, 5), ("dev", (-2, 1, 3), 2), [T1, T2]),
+        ("stale_res_attr_3x3_02", (3, 3), ("full", (0, 2)), [R1, R2]),
+        ("stale_res_attr_2x4_012", (2, 4), ("full", (0, 1, 2)), [R1, R2]),
+        ("stale_res_attr_dev_5x5_k2", (5, 5), ("dev", (-2, 1, 3), 2), [R1, R2]),
         ("full_3x3_012_A", (3, 3), ("full", (0, 1, 2)), [A]),
         ("full_3x3_02_defaults", (3, 3), ("full", (0, 2)), [DEFAULTS]),
         ("full_2x3_02_product96", (2, 3), ("full", (0, 2)), PRODUCT),
@@ -128,7 +145,8 @@ SPACES = {t: [e if len(e) == 5 else e + ("centre",) for e in sp] for t, sp in SP
 def _cfg_json(c):
     return dict(observer_elev=c["oe"], target_elev=c["te"], cell_size_xy=list(c["cell"]),
                 y="descending" if c["desc"] else "ascending", dtype=c["dtype"],
-                optional_arguments="omitted" if c.get("defaults") else "passed as floats")
+                optional_arguments="omitted" if c.get("defaults") else "passed as floats",
+                **({"attrs_res": list(c["res_attr"])} if c.get("res_attr") else {}))
 
 
 BOUNDS = {t: {"spaces": [dict(name=n, shape=list(s),
@@ -204,7 +222,8 @@ class ViewshedSpace(Space):
         if c.get("defaults"):
             return "defaults|cell=(1,1)|y=asc|dtype=f8"
         return "observer_elev=%g|target_elev=%g|cell=(%g,%g)|y=%s|dtype=%s" % (
-            c["oe"], c["te"], c["cell"][0], c["cell"][1], "desc" if c["desc"] else "asc", c["dtype"])
+            c["oe"], c["te"], c["cell"][0], c["cell"][1], "desc" if c["desc"] else "asc", c["dtype"]) + (
+                "|attrs.res=%r" % (c["res_attr"],) if c.get("res_attr") else "")
 
     def describe(self, rank):
         a, lit, (vr, vc), off, cfg = self.case(rank)
@@ -232,6 +251,8 @@ class ViewshedSpace(Space):
             self.templates[tk] = (dataarray(np.zeros(self.shape), ys, xs), xs, ys)
         tpl, xs, ys = self.templates[tk]
         r = tpl.copy(data=a.astype(cfg["dtype"]))
+        if cfg.get("res_attr"):
+            r.attrs["res"] = cfg["res_attr"]
         # off = (0, 0): exactly the centre coordinates; otherwise displaced by a fraction of the (signed) coordinate step
         x = float(xs[vc]) + off[1] * float(xs[1] - xs[0])
         y = float(ys[vr]) + off[0] * float(ys[1] - ys[0])
